@@ -19,40 +19,42 @@ EXPLANATION = ("Bounded symbolic execution (CrossHair/z3) of the real start_at/i
 RULE = "one case per (depth of X, malformation kind, route, implicit-action mask); all are non-trivial"
 LIM = {"quick": dict(D=4, hxs=(0,)), "thorough": dict(D=6, hxs=(0, 7))}
 KINDS = ["init-to-self", "init-to-parent", "init-to-sibling", "init-to-other-branch", "none-for-event", "none-for-all"]
-ROUTES = ["start_at-X", "start_at-ancestor-init-into-X", "transition-into-X", "event-offered-to-X"]
+ROUTES = ["start_at-D", "start_at-ancestor-init-into-D", "transition-into-D", "event-offered-to-D", "transition-into-ancestor-whose-init-targets-D"]
+DESTS = ["X", "child-of-X"]
 
 
 def bounds(tier):
   d = dict(LIM[tier])
-  d["meaning"] = "D = max depth of the faulty state X; kinds=%s; routes=%s" % (KINDS, ROUTES)
+  d["meaning"] = ("D = max depth of the faulty state X; kinds=%s; routes=%s; destination D = %s; deep = the current state is a child of the "
+                  "transition's source state" % (KINDS, ROUTES, DESTS))
   return d
 
 
 def pre(v, lim):
-  d, kind, route = v["d"], v["kind"], v["route"]
+  d, kind, route, dest, deep = v["d"], v["kind"], v["route"], v["dest"], v["deep"]
   if d > lim["D"]:
     return False
   if v["hx"] not in lim["hxs"]:
     return False
   if kind == 1 and d < 2:
     return False          # needs a parent
-  if route == 1 and d < 2:
-    return False          # needs an ancestor to start at
+  if route in (1, 4) and d < 2:
+    return False          # needs an ancestor
+  if kind < 4 and dest == 1:
+    return False          # X's initial transition is only taken when X itself is the destination
   if kind == 4 and route != 3:
-    return False          # 'None for the offered event' only shows when the event is offered to X
+    return False          # 'None for the offered event' only shows when the event is offered (bubbles) to X
   if kind < 4 and route == 3:
     return False          # offering an event to X does not take X's initial transition
+  if deep and route not in (2, 4):
+    return False          # only transitions have a source state
   return True
 
 
-class Host:
-  pass
-
-
-def case(d, kind, route, hx):
+def case(d, kind, route, dest, deep, hx):
   from miros.hsm import HsmEventProcessor, HsmTopologyException
 
-  # chain 0..d-1, X = d-1; C child of X; Y sibling of X; Z, Z2 another branch; H a healthy root state
+  # chain 0..d-1, X = d-1; C child of X; Y sibling of X; Z, Z2 another branch; H a healthy root state, H2 its child
   parent = [i - 1 for i in range(d)]
   X = d - 1
   parent.append(X); C = len(parent) - 1
@@ -60,10 +62,12 @@ def case(d, kind, route, hx):
   parent.append(-1); Z = len(parent) - 1
   parent.append(Z); Z2 = len(parent) - 1
   parent.append(-1); H = len(parent) - 1
+  parent.append(H); H2 = len(parent) - 1
   n = len(parent)
   init = [-1] * n
   react = [charts.R_PASS] * n
   none_for = {}
+  D = X if dest == 0 else C
   if kind == 0:
     init[X] = X
   elif kind == 1:
@@ -76,10 +80,12 @@ def case(d, kind, route, hx):
     none_for[X] = ("user",)
   else:
     none_for[X] = ("all",)
-  if route == 1:
-    init[0] = X
+  if route in (1, 4):
+    init[0] = D
   if route == 2:
-    react[H] = X
+    react[H] = D
+  if route == 4:
+    react[H] = 0
   ch = charts.Chart(parent, react, init, hx=hx, none_for=none_for, call_limit=400)
 
   class CountingHost(HsmEventProcessor):
@@ -90,15 +96,16 @@ def case(d, kind, route, hx):
       return super().top(*args)
 
   c = CountingHost()
-  allowed = set(charts.anc(parent, X))
-  if route in (2, 3):
-    cur = H if route == 2 else X
+  allowed = set(charts.anc(parent, D))
+  if route >= 2:
+    cur = D if route == 3 else (H2 if deep else H)
     c.state.fun = ch.hs[cur]
     c.temp.fun = ch.hs[cur]
-  what = "%s via %s depth %d" % (KINDS[kind], ROUTES[route], d)
+  what = "%s via %s, destination %s, depth of X %d%s" % (KINDS[kind], ROUTES[route], DESTS[dest], d, ", current state below the source" if deep else "")
+  rname = "start" if route < 2 else "dispatch"
   try:
     if route == 0:
-      c.start_at(ch.hs[X])
+      c.start_at(ch.hs[D])
     elif route == 1:
       c.start_at(ch.hs[0])
     else:
@@ -110,13 +117,13 @@ def case(d, kind, route, hx):
       return FAIL("wrong-state-entered:" + KINDS[kind], "%s: entered %s before raising" % (what, wrong))
     return PASS()
   except HarnessAbort:
-    return FAIL("hang:%s:%s" % (KINDS[kind], "start" if route < 2 else "dispatch"), "%s: more than 400 handler/top calls, log tail %s" % (what, ch.log[-6:]))
+    return FAIL("hang:%s:%s" % (KINDS[kind], rname), "%s: more than 400 handler/top calls, log tail %s" % (what, ch.log[-6:]))
   except Exception as ex:
-    return FAIL("other-exception:%s:%s" % (KINDS[kind], type(ex).__name__), "%s: %r" % (what, ex))
-  return FAIL("no-exception:%s:%s" % (KINDS[kind], "start" if route < 2 else "dispatch"), "%s: returned normally, log %s" % (what, ch.log))
+    return FAIL("other-exception:%s:%s:%s" % (KINDS[kind], rname, type(ex).__name__), "%s: %r" % (what, ex))
+  return FAIL("no-exception:%s:%s:%s" % (KINDS[kind], ROUTES[route], DESTS[dest]) + (":deep" if deep else ""), "%s: returned normally, log %s" % (what, ch.log))
 
 
-Family(globals(), "h_malformed", params=[("d", 1, 6), ("kind", 0, 5), ("route", 0, 3), ("hx", 0, 7)],
+Family(globals(), "h_malformed", params=[("d", 1, 6), ("kind", 0, 5), ("route", 0, 4), ("dest", 0, 1), ("deep", 0, 1), ("hx", 0, 7)],
        pre=pre, case=case, split=["hx"], tiers=LIM)
 
 
